@@ -269,6 +269,10 @@ int main(int argc, char **argv) {
           if (!strcmp(prot, "rx")) pr = PROT_READ | PROT_EXEC;
           else if (!strcmp(prot, "rw")) pr = PROT_READ | PROT_WRITE;
           else if (!strcmp(prot, "n")) pr = PROT_NONE;
+          else if (!strcmp(prot, "w")) pr = PROT_WRITE;
+          else if (!strcmp(prot, "wx")) pr = PROT_WRITE | PROT_EXEC;
+          else if (!strcmp(prot, "x")) pr = PROT_EXEC;
+          else if (!strcmp(prot, "rwx")) pr = PROT_READ | PROT_WRITE | PROT_EXEC;
           if (mmap(at, np * page, pr, MAP_PRIVATE | MAP_FIXED, fd, off) == MAP_FAILED) { perror("mmap module"); return 2; }
           at += np * page;
         }
